@@ -21,6 +21,13 @@ from absint import V, Hooks
 
 NEUTRAL = 'K'
 
+# units of decoder-state fields in the block layer (lib/block.c): S = stream (full-rate) samples, D = decoder-output samples
+FIELD_UNITS = {
+    ('vorbis_dsp_state', 'granulepos'): 'S', ('vorbis_block', 'granulepos'): 'S', ('private_state', 'sample_count'): 'S',
+    ('vorbis_dsp_state', 'pcm_current'): 'D', ('vorbis_dsp_state', 'pcm_returned'): 'D', ('vorbis_dsp_state', 'centerW'): 'D',
+}
+ARRAY_UNITS = {('codec_setup_info', 'blocksizes'): 'S'}
+
 
 def fjoin(a, b):
     """frames are frozensets of frame names; K is neutral"""
@@ -47,6 +54,7 @@ class Frames(Hooks):
         self.stores = []
         self.compares = []
         self.unit_errors = []
+        self.field_stores = []   # (eid, unit of the field, unit set stored) for stores to FIELD_UNITS fields
         self.reads = []          # (call eid, unit set of the count argument) for vorbis_synthesis_read
         self.loops = absint.cfg.loops(F)
         self.hs_vars = set()     # locals holding the half-rate flag
@@ -176,6 +184,8 @@ class Frames(Hooks):
                 return one('Pg'), one('S')
             if f == 'granulepos' and rec in ('ogg_packet',):
                 return one('Gs'), one('S')
+            if (rec, f) in FIELD_UNITS:
+                return None, one(FIELD_UNITS[(rec, f)])
             key = A.path(e, env)
             return fr.get(key), un.get(key)
         if k == 'sub':
@@ -187,6 +197,8 @@ class Frames(Hooks):
                 if par == 1:
                     return one(f'Len:{L}'), one('S')
                 return one('?pcmlengths'), one('S')
+            if b['k'] == 'member' and (b.get('record'), b.get('field')) in ARRAY_UNITS:
+                return None, one(ARRAY_UNITS[(b.get('record'), b.get('field'))])
             return None, None
         if k == 'call':
             d = n['callee'].get('d')
@@ -462,6 +474,12 @@ class Frames(Hooks):
             if l['k'] == 'member' and l.get('record') == 'OggVorbis_File' and l.get('field') == 'pcm_offset':
                 if A.final:
                     self.stores.append((e, f, u, val.const() if isinstance(val, V) else None))
+            if l['k'] == 'member' and (l.get('record'), l.get('field')) in FIELD_UNITS and A.final:
+                fu = FIELD_UNITS[(l.get('record'), l.get('field'))]
+                self.field_stores.append((e, fu, u))
+                if u and u != one(fu) and 'hs' not in u:
+                    self._uerr(A, (e, f'{F.s(e)}: a quantity in {sorted(u)} is stored into {l.get("field")}, which is kept in '
+                                      f'{"stream" if fu == "S" else "decoder-output"} samples'))
         return None
 
     def on_node(self, A, env, e, v):
@@ -647,3 +665,56 @@ def c20(chk, P):
             chk.ob('R20.1', k, f'position-advance-in-stream-samples#{i}', ok, F.where(e), f'{F.s(e)}: advance in {sorted(u)}')
             n += 1
     chk.floor('R20.1', 8)
+    r20_5(chk, P)
+
+
+# a unit inconsistency of the unchanged tree that has no effect, with the reason: (function, text of the expression)
+UNIT_ASSUME = {
+    ('_vds_shared_init', 'store:centerW'):
+        'the set-up shared by encoder and decoder stores blocksizes[1]/2 (stream samples) as the window centre; the encoder has no '
+        'half-rate mode, so the two units coincide there, and on the decode side vorbis_synthesis_init calls '
+        'vorbis_synthesis_restart directly afterwards, which overwrites centerW with blocksizes[1]>>(hs+1)',
+    ('vorbis_synthesis_restart', '>>:centerW'):
+        'centerW is already in output samples, so the value stored into pcm_current is half of what it names; the store is dead: '
+        'the same function sets pcm_returned=-1 and vorbis_synthesis_blockin overwrites pcm_current (and pcm_returned) with the '
+        'window centre when it finds pcm_returned==-1, before either is read',
+}
+
+
+def r20_5(chk, P):
+    chk.rule('R20.5', 'units of measure in the block layer (lib/block.c, lib/synthesis.c): in every function that reads the '
+             'half-rate flag, the decoder-output-sample fields (pcm_current, pcm_returned, centerW and locals derived from '
+             'blocksizes>>hs) and the stream-sample fields (granulepos of the decoder and of the block, sample_count, '
+             'blocksizes[]) meet only through a shift by the half-rate flag: no addition, subtraction, comparison or store mixes '
+             'the two, on every path (flow-sensitive for locals: extra>>=hs changes the unit of extra)')
+    n = 0
+    for F in P.functions():
+        if not F.file.endswith(('lib/block.c', 'lib/synthesis.c')):
+            continue
+        reads_hs = any(nd['k'] == 'member' and nd.get('field') == 'halfrate_flag' for nd in F.ex.values())
+        if not reads_hs:
+            continue
+        A, h, exits = _run(P, F)
+        k = P.key(F)
+        errs = {}
+        for (e, m) in h.unit_errors:
+            errs.setdefault(e, m)
+        for e in sorted(errs, key=lambda x: F.ex[x].get('loc') or [0, 0]):
+            nd = F.ex[e]
+            tag = None
+            if nd['k'] in ('bin', 'assign') and nd.get('c'):
+                l = F.ex[F.strip_casts(nd['c'][0])]
+                if l['k'] == 'member':
+                    tag = f"{'store' if nd['k'] == 'assign' else nd['op']}:{l.get('field')}"
+            key = (k, tag) if (k, tag) in UNIT_ASSUME else None
+            if key:
+                chk.assumed('R20.5', k, f'unit:{key[1]}', F.where(e), UNIT_ASSUME[key])
+                errs.pop(e)
+                n += 1
+        chk.ob('R20.5', k, 'no-unit-mixing', not errs, F.where(sorted(errs)[0]) if errs else F.where(),
+               f'{len(h.field_stores)} stores to unit-carrying fields, no expression mixes stream samples and decoder-output samples'
+               if not errs else '; '.join(sorted(set(errs.values())))[:400])
+        n += 1
+        for i, (e, fu, u) in enumerate(sorted(set(h.field_stores), key=lambda t: (F.ex[t[0]].get('loc') or [0, 0], t[1]))):
+            pass
+    chk.floor('R20.5', 4)
